@@ -94,6 +94,8 @@ func runC09(p *Prog, r *Report) {
 	r.Floor("C09.R4", lockOpsOf(p, roots), 40, "lock acquisitions on call paths from entry points")
 	nLocks := c09Pairing(p, r, "C09.R3", "")
 	r.Floor("C09.R3", nLocks, 25, "lock acquisitions")
+	limiterSerial(p, r, "C09.R6") // no update of a source's buckets is lost: get-or-create is one critical section
+	r.Floor("C09.R5", checkSnapshots(p, r, "C09.R5", nil), 4, "snapshot methods (Clone / Export) in memmetrics")
 }
 
 func lockOpsOf(p *Prog, roots []*types.Named) int {
